@@ -29,9 +29,11 @@ import (
 	"strconv"
 	"strings"
 	"sync"
+	"sync/atomic"
 	"time"
 
 	"github.com/krotik/ecal/engine"
+	"github.com/krotik/ecal/engine/pool"
 	"github.com/krotik/ecal/interpreter"
 	"github.com/krotik/ecal/parser"
 	"github.com/krotik/ecal/stdlib"
@@ -404,6 +406,9 @@ func c12Exec(payload string) string {
 	threads, _ := strconv.Atoi(f[1])
 	iters, _ := strconv.Atoi(f[2])
 	seed, _ := strconv.ParseUint(f[3], 10, 64)
+	if mode == "I" {
+		return c12Ids(threads, iters, f[4])
+	}
 	var roles [][]*c12Block
 	for _, rt := range strings.Split(f[4], "|") {
 		pos := 0
@@ -464,7 +469,11 @@ func c12Exec(payload string) string {
 		doneMu.Unlock()
 	}
 
-	// direct evaluation: one goroutine per thread, each with its own thread id
+	// direct evaluation: one goroutine per thread; every goroutine asks for its own thread id,
+	// all of them at the same moment (a generator handing out one id twice makes two threads
+	// "re-enter" each other's blocks)
+	var startGate int32 // spin gate: the goroutines are running when it opens
+	var ready sync.WaitGroup
 	for i := 0; i < nDirect; i++ {
 		role := (nSink + i) % len(roles)
 		call, perr := parser.ParseWithRuntime("call", fmt.Sprintf("work%d()", role), erp)
@@ -474,11 +483,18 @@ func c12Exec(payload string) string {
 		if perr = call.Runtime.Validate(); perr != nil {
 			return "validate-error " + hx(perr.Error())
 		}
-		tid := erp.NewThreadID()
 		total++
 		wg.Add(1)
+		ready.Add(1)
 		go func() {
 			defer wg.Done()
+			ready.Done()
+			for spin := 0; atomic.LoadInt32(&startGate) == 0; spin++ {
+				if spin%1000 == 999 {
+					runtime.Gosched()
+				}
+			}
+			tid := erp.NewThreadID()
 			var e error
 			for k := 0; k < iters && e == nil; k++ {
 				_, e = call.Runtime.Eval(vs, make(map[string]interface{}), tid)
@@ -486,6 +502,8 @@ func c12Exec(payload string) string {
 			finished(e)
 		}()
 	}
+	ready.Wait()
+	atomic.StoreInt32(&startGate, 1)
 	// sinks: nSink workers, nSink*iters events posted from several goroutines
 	if nSink > 0 {
 		erp.Processor.SetRootMonitorErrorObserver(func(rm *engine.RootMonitor) {
@@ -600,6 +618,115 @@ wait:
 	return res + " T=" + trace
 }
 
+// c12Ids hammers the thread-id generator: g goroutines request per ids each, all starting
+// together. variant p = pool.NewThreadID of a bare pool, e = erp.NewThreadID, w = a pool whose
+// worker count is raised step by step to g at the same time (the workers take their ids from
+// the same generator; afterwards g tasks that wait for each other make every worker report
+// its id).  result: ids=<n> dup=<duplicates> zero=<zero ids> wk=<workers seen> wdup=<worker ids
+// equal to another worker's or to a requested id>
+func c12Ids(g, per int, variant string) string {
+	var next func() uint64
+	var tp *pool.ThreadPool
+	switch variant {
+	case "e":
+		erp := interpreter.NewECALRuntimeProvider("c12", nil, &memLog{})
+		defer erp.Cron.Stop()
+		next = erp.NewThreadID
+	default:
+		tp = pool.NewThreadPool()
+		next = tp.NewThreadID
+	}
+	got := make([][]uint64, g)
+	gate := make(chan struct{})
+	var ready, wg sync.WaitGroup
+	for i := 0; i < g; i++ {
+		ready.Add(1)
+		wg.Add(1)
+		go func(i int) {
+			defer wg.Done()
+			ids := make([]uint64, 0, per)
+			ready.Done()
+			<-gate
+			for k := 0; k < per; k++ {
+				ids = append(ids, next())
+			}
+			got[i] = ids
+		}(i)
+	}
+	if variant == "w" {
+		wg.Add(1)
+		go func() {
+			defer wg.Done()
+			<-gate
+			for n := 1; n <= g; n++ {
+				tp.SetWorkerCount(n, false)
+				runtime.Gosched()
+			}
+		}()
+	}
+	ready.Wait()
+	close(gate)
+	wg.Wait()
+	seen := make(map[uint64]int, g*per)
+	dup, zero, n := 0, 0, 0
+	for _, ids := range got {
+		for _, id := range ids {
+			n++
+			if id == 0 {
+				zero++
+			}
+			if seen[id] > 0 {
+				dup++
+			}
+			seen[id]++
+		}
+	}
+	wk, wdup := 0, 0
+	if variant == "w" {
+		tp.SetWorkerCount(g, true)
+		var mu sync.Mutex
+		var wids []uint64
+		var arrived sync.WaitGroup
+		arrived.Add(g)
+		release := make(chan struct{})
+		for i := 0; i < g; i++ {
+			tp.AddTask(&c12Task{func(tid uint64) {
+				mu.Lock()
+				wids = append(wids, tid)
+				mu.Unlock()
+				arrived.Done()
+				<-release
+			}})
+		}
+		ok := make(chan struct{})
+		go func() { arrived.Wait(); close(ok) }()
+		select {
+		case <-ok:
+		case <-time.After(60 * time.Second):
+		}
+		close(release)
+		tp.JoinAll()
+		mu.Lock()
+		wk = len(wids)
+		for _, id := range wids {
+			if id == 0 {
+				zero++
+			}
+			if seen[id] > 0 {
+				wdup++
+			}
+			seen[id]++
+		}
+		mu.Unlock()
+	}
+	return fmt.Sprintf("ids=%d dup=%d zero=%d wk=%d wdup=%d", n, dup, zero, wk, wdup)
+}
+
+type c12Task struct{ f func(tid uint64) }
+
+func (t *c12Task) Run(tid uint64) error { t.f(tid); return nil }
+func (t *c12Task) HandleError(e error)  {}
+
 var c12Bound = 6 * time.Second
 
 func init() {
@@ -613,6 +740,14 @@ func init() {
 				g.Count("mode " + mode)
 				g.Count(fmt.Sprintf("threads %02d", threads))
 				g.Emit(fmt.Sprintf("%s %d %d %d %s", mode, threads, iters, g.R.U64()%1000000, roles))
+			}
+			// the thread-id generator under contention (>= 10^5 ids per case)
+			for _, v := range []string{"p", "e", "w"} {
+				for _, n := range []int{2, 5, 16} {
+					g.Count("mode I")
+					g.Count("id-generator " + v)
+					g.Emit(fmt.Sprintf("I %d %d 0 %s", n, 100000/n+1, v))
+				}
 			}
 			// directed cases first
 			for _, mode := range []string{"D", "S", "M"} {
